@@ -118,6 +118,60 @@ pub fn check_pair(old: &[u8], new: &[u8]) -> Result<(bool, u64, u64), String> {
             ));
         }
     }
+    // ONE sequence object on both sides, the two inputs being two ranges of it (raw and
+    // captured); and the same diff right after a Patience diff of another input on this thread
+    {
+        let both: Vec<u8> = old.iter().chain(new.iter()).copied().collect();
+        let ops2 = capture(Algorithm::Patience, &both[..], 0..n, &both[..], n..n + m)?;
+        let calls2 = raw_stream(Algorithm::Patience, 0, &both[..], 0..n, &both[..], n..n + m)?;
+        let mut matched_ops = 0;
+        for op in &ops2 {
+            if op.tag() == DiffTag::Equal {
+                for (i, j) in op.old_range().zip(op.new_range()) {
+                    if j >= n && is_anchor(i, j - n) {
+                        matched_ops += 1;
+                    }
+                }
+            }
+        }
+        let mut matched_raw = 0;
+        for c in &calls2 {
+            if let Call::Eq(o, nn, len) = *c {
+                for d in 0..len {
+                    if nn + d >= n && is_anchor(o + d, nn + d - n) {
+                        matched_raw += 1;
+                    }
+                }
+            }
+        }
+        if matched_ops != l || matched_raw != l {
+            return Err(format!(
+                "one sequence {:?} on both sides with ranges {:?} and {:?}: Patience pairs {} (captured) / {} (raw) of the {} items that are unique on both sides; the longest in-order chain has {} [ops: {:?}]",
+                both, 0..n, n..n + m, matched_ops, matched_raw, u.len(), l, ops2
+            ));
+        }
+        const EARLIER: [(&[u8], &[u8]); 2] = [(&[0, 0, 1, 1, 2, 2, 3, 3, 0, 0], &[0, 1, 2, 3, 4]), (&[4, 3, 2, 1, 0], &[1, 1, 0, 0])];
+        for (a, b) in EARLIER.iter() {
+            let _ = capture(Algorithm::Patience, *a, 0..a.len(), *b, 0..b.len())?;
+            let ops3 = capture(Algorithm::Patience, old, 0..n, new, 0..m)?;
+            let mut matched3 = 0;
+            for op in &ops3 {
+                if op.tag() == DiffTag::Equal {
+                    for (i, j) in op.old_range().zip(op.new_range()) {
+                        if is_anchor(i, j) {
+                            matched3 += 1;
+                        }
+                    }
+                }
+            }
+            if matched3 != l {
+                return Err(format!(
+                    "captured Patience ops computed right after a Patience diff of {:?} / {:?} on the same thread pair {} of the {} items that are unique on both sides; the longest in-order chain has {} [ops: {:?}; on their own: {:?}]",
+                    a, b, matched3, u.len(), l, ops3, ops
+                ));
+            }
+        }
+    }
     let mut fp = Fp::new();
     fp.add(ops_fp(&ops));
     fp.add(l as u64);
